@@ -19,7 +19,7 @@ import CircuitModel.DriverTrace
 open CM
 
 def suites : List (String × (List (String × String) → List (String × String) → List String)) :=
-  [("rc", suiteRC), ("tc", suiteTC), ("rp", suiteRP), ("sd", suiteSD), ("circuit", suiteCircuit), ("opener", suiteOpener), ("closer", suiteCloser), ("merge", suiteMerge), ("manager", suiteManager), ("consumers", suiteConsumers), ("gowrap", suiteGoWrap), ("tr-rc", suiteTrRC), ("tr-gauge", suiteTrGauge), ("tr-trans", suiteTrTrans), ("tr-tc", suiteTrTC), ("tr-mgr", suiteTrMgr), ("tr-call", suiteTrCall), ("tr-run", suiteTrRun), ("tr-run-gauge", suiteTrRunGauge)]
+  [("rc", suiteRC), ("tc", suiteTC), ("rp", suiteRP), ("sd", suiteSD), ("circuit", suiteCircuit), ("opener", suiteOpener), ("closer", suiteCloser), ("merge", suiteMerge), ("manager", suiteManager), ("consumers", suiteConsumers), ("gowrap", suiteGoWrap), ("tr-rc", suiteTrRC), ("tr-gauge", suiteTrGauge), ("tr-trans", suiteTrTrans), ("tr-tc", suiteTrTC), ("tr-mgr", suiteTrMgr), ("tr-call", suiteTrCall), ("tr-run", suiteTrRun), ("tr-run-gauge", suiteTrRunGauge), ("tr-exec-gauge", suiteTrExecGauge)]
 
 partial def readAll (h : IO.FS.Stream) (acc : Array String) : IO (Array String) := do
   let line ← h.getLine
